@@ -493,14 +493,21 @@ func (e *Engine) discharge(vcs []*VC, opts runOpts) {
 				j.o.Answer, j.o.Solver, j.o.Ms, j.o.Output = r.Answer, r.Solver, r.Ms, r.Output
 				if j.o.Expect != "sat" && (r.Answer == "timeout" || r.Answer == "unknown") {
 					// case split: both halves must be discharged
+					sto := to
+					if sto > 6*time.Second {
+						sto = 6 * time.Second
+					}
 					for si, c := range j.vc.splits {
+						if si >= 4 {
+							break
+						}
 						h1 := strings.Replace(q, "(check-sat)", "(assert "+c+")\n(check-sat)", 1)
 						h2 := strings.Replace(q, "(check-sat)", "(assert (not "+c+"))\n(check-sat)", 1)
-						r1 := solve(h1, fmt.Sprintf("%s.split%d.a", j.o.Name, si), to, false, opts.tmpdir, false)
+						r1 := solve(h1, fmt.Sprintf("%s.split%d.a", j.o.Name, si), sto, false, opts.tmpdir, false)
 						if r1.Answer != "unsat" {
 							continue
 						}
-						r2 := solve(h2, fmt.Sprintf("%s.split%d.b", j.o.Name, si), to, false, opts.tmpdir, false)
+						r2 := solve(h2, fmt.Sprintf("%s.split%d.b", j.o.Name, si), sto, false, opts.tmpdir, false)
 						if r2.Answer == "unsat" {
 							j.o.Answer, j.o.Solver, j.o.Ms = "unsat", "case-split", r.Ms+r1.Ms+r2.Ms
 							break
